@@ -14,7 +14,7 @@ SPEC = {
              'with an independent max-plus reference; plus the two documented serial examples rebuilt from '
              'their parameters; a case is one line; non-trivial = some station was blocked at least once '
              '(the downstream term of the recurrence decided a departure) or starved; distinct = by hash of '
-             'the line parameters'),
+             'the line parameters; also: budget top-ups (from events and between runs, aimed at the production interval of the spare part), non-integral budgets, exactly representable extreme ratios (delay 2**30, clock near 2**30), finish callbacks that fail once under a catching caller'),
     'floors': {'quick': {'arrival_times_compared': 10000, 'blocked_departures': 500},
                'thorough': {'arrival_times_compared': 400000, 'blocked_departures': 20000}},
     'assumptions': ['exactness is claimed on the exactly representable (dyadic) grid only, as the property states'],
